@@ -16,6 +16,10 @@ import PV.Model.B64filter
 import PV.Model.Tools
 import PV.Model.Reader
 import PV.Model.Io
+import PV.Model.Flatten
+import PV.Model.Warc
+import PV.Spec.Flatten
+import PV.Gen.Flatten
 import PV.Spec.FirstOcc
 import PV.Spec.Base64
 /-
@@ -378,6 +382,49 @@ def io (op : String) (args : List String) : String :=
     | _, _, _ => "bad-op"
   | _, _ => "bad-op"
 
+def decode16 : List Nat → List Nat
+  | hi :: lo :: r => if PV.Flatten.isLead hi && PV.Flatten.isTrail lo then PV.Flatten.combine hi lo :: decode16 r else hi :: decode16 (lo :: r)
+  | l => l
+
+/-- flat.apply <lang> <space code points csv|-> <units csv|->  : model of Flatten::Apply ; `u_isspace` is
+    passed in as the finite set of space code points relevant to the input. -/
+def flat (op : String) (args : List String) : String :=
+  match op, args with
+  | "apply", [lang, sp, us] =>
+    match PV.Gen.flattenLangs.find? (·.1 == lang), natList sp, natList us with
+    | some (_, rules), some sp, some us =>
+      let out := PV.Flatten.apply rules (fun c => sp.contains c) us
+      "ok " ++ (if out.isEmpty then "-" else ",".intercalate (out.map toString))
+    | none, _, _ => "ERR:exception"
+    | _, _, _ => "bad-op"
+  | "spec.apply", [lang, sp, us] =>
+    match PV.Gen.flattenLangs.find? (·.1 == lang), natList sp, natList us with
+    | some (_, rules), some sp, some us =>
+      let out := PV.Spec.Flatten.flatten rules (fun c => sp.contains c) (decode16 us)
+      "ok " ++ (if out.isEmpty then "-" else ",".intercalate (out.map toString))
+    | none, _, _ => "ERR:exception"
+    | _, _, _ => "bad-op"
+  | _, _ => "bad-op"
+
+def warcErr : PV.Warc.Err → String
+  | .eofInHeader => "ERR:eof"
+  | .eofInBody => "ERR:eof"
+  | .badVersion => "ERR:version"
+  | .twoLengths => "ERR:twolengths"
+  | .lengthParse => "ERR:lengthparse"
+  | .noLength => "ERR:nolength"
+  | .noTerminator => "ERR:noterminator"
+
+def warc (op : String) (args : List String) : String :=
+  match op, args with
+  | "read", [sched, h] =>
+    match natList sched, unhex h with
+    | some sc, some data =>
+      let (rs, e) := PV.Warc.records data sc
+      s!"ok {rs.length}" ++ String.join (rs.map (fun r => " " ++ hex r)) ++ (match e with | some e => " " ++ warcErr e | none => "")
+    | _, _ => "bad-op"
+  | _, _ => "bad-op"
+
 def dispatch (line : String) : String :=
   match words line with
   | [] => "bad-op"
@@ -394,6 +441,9 @@ def dispatch (line : String) : String :=
     | ["reader", op] => reader op args
     | ["reader", "spec", op] => reader ("spec." ++ op) args
     | ["io", op] => io op args
+    | ["flat", op] => flat op args
+    | ["warc", op] => warc op args
+    | ["flat", "spec", op] => flat ("spec." ++ op) args
     | ["tools", "spec", op] => tools ("spec." ++ op) args
     | ["murmur", "spec", op] => murmur ("spec." ++ op) args
     | ["fields", op] => fields op args
